@@ -52,7 +52,6 @@ func (w *WaterMark) Init(closer *Closer) {
 // Begin sets the last index to the given value.
 func (w *WaterMark) Begin(index uint64) {
 	w.setLastIndex(index)
-	verifYield("wm.begin.mid")
 	w.addIndex(index, 1)
 }
 
@@ -156,7 +155,6 @@ func (w *WaterMark) setLastIndex(index uint64) {
 
 func (w *WaterMark) tryAdvance() {
 	for {
-		verifYield("wm.advance.loop")
 		doneUntil := w.DoneUntil()
 		lastIndex := w.LastIndex()
 		if doneUntil >= lastIndex {
